@@ -32,3 +32,25 @@ def run(family, params, timeout=300):
         return out
     except Exception as e:
         return None
+
+
+# ---- second driver crate (nuts-rs with the zarr feature): Zarr-vs-HashMap differential through the real build, used as model validation by C15
+ZTARGET = os.path.join(CACHE, 'target-replay-zarr'); _zbuilt = [None]
+def build_zarr():
+    if REPO != '/repo': return False           # self-test runs on scratch copies skip the (slow to build) validation driver
+    if _zbuilt[0] is not None: return _zbuilt[0]
+    lock = open(os.path.join(CACHE, 'replay-zarr.lock'), 'w'); fcntl.flock(lock, fcntl.LOCK_EX)
+    try:
+        env = dict(os.environ, CARGO_NET_OFFLINE='true', CARGO_TARGET_DIR=ZTARGET)
+        p = subprocess.run(['cargo', 'build', '--offline', '--quiet'], cwd=os.path.join(VERIF, 'replay-zarr'), env=env, stdout=subprocess.PIPE, stderr=subprocess.STDOUT, text=True)
+        _zbuilt[0] = p.returncode == 0
+        if p.returncode != 0: print('zarr replay build failed:\n' + p.stdout[-1500:])
+        return _zbuilt[0]
+    finally:
+        fcntl.flock(lock, fcntl.LOCK_UN); lock.close()
+def run_zarr(params, timeout=300):
+    if not build_zarr(): return None
+    try:
+        p = subprocess.run([os.path.join(ZTARGET, 'debug', 'verif-replay-zarr'), json.dumps(params)], stdout=subprocess.PIPE, stderr=subprocess.PIPE, text=True, timeout=timeout)
+        return json.loads(p.stdout.strip().split('\n')[-1])
+    except Exception: return None
